@@ -313,7 +313,7 @@ def run(ctx):
     cov = {
         "traces_validated_against_impl": len(sel) + len(trows),
         "scripts_generated": len(scripts), "scripts_replayed": len(sel),
-        "queries_per_script": 168, "evaluations": checked + len(trows),
+        "queries_per_script": 186, "evaluations": checked + len(trows),
         "distinct_nontrivial": nontrivial,
         "rule": "one script per reachable terminal state of IgnoreAnon.tla (configuration x toggle plan x endpoint, 3 recorded rounds, 3 reconfigurations); an evaluation is one "
                 "(observation point, query) or (observation point, counter) comparison; non-trivial = the spec demands absence or admits both "
